@@ -13,6 +13,8 @@ only if never computed or if a dependency it read has a different value now.
 PART 2 (namespace `Qbice.Core`): the same theorems for the firewall-free core model, unchanged.
 -/
 import QbiceVerif.Lemmas.EngineCoreFw13
+import QbiceVerif.Lemmas.EngineCoreFwTotal
+import QbiceVerif.Lemmas.EngineCoreFwEx
 import QbiceVerif.Lemmas.EngineCoreEx
 namespace Qbice.CoreFw
 open Qbice.Core (Prog Err Write SetRes Op OpOut Ref Sat)
@@ -128,6 +130,32 @@ example : WF exF ∧ Shape exF ∧ Inv exF exFS ∧ Inv exF exFU ∧
     (query exF (fuelFor exF) .user 5 { exFS with log := [] }).toOption.map (·.2.log) = some [2] ∧
     (query exF (fuelFor exF) .user 5 { exFU with log := [] }).toOption.map (·.2.log) = some [2, 3, 4, 5] :=
   ⟨exF_wf, exF_noProj.over.shape, exFS_inv, exFU_inv, by decide, by decide⟩
+
+/-- the two statements above WITHOUT the premise "the request answered": in a state satisfying the
+    invariant in which every input key has a value, a request by the user for a key of the program IS
+    `.ok`, and its executions are pairwise distinct, each a first computation or justified by an observed
+    dependency whose from-scratch value changed.  PARTIAL: `Shape p`. -/
+theorem core_exec_justified_total_partial {p : Program} (wf : WF p) (sh : Shape p) {s : St} (inv : Inv p s)
+    (hin : InputsSet p s) {k fuel : Nat} (hk : k < fuel) (hlen : k < p.length) :
+    ∃ v s' new, query p fuel .user k s = .ok (v, s') ∧ s'.log = s.log ++ new ∧ new.Nodup ∧
+      ∀ x, x ∈ new → s.nodes x = none ∨
+        ∃ n d o, s.nodes x = some n ∧ (d, o) ∈ n.deps ∧ cur p s d ≠ some o := by
+  obtain ⟨⟨v, s'⟩, h⟩ := query_total wf sh hk hlen inv hin
+  obtain ⟨new, e, j⟩ := core_exec_justified_partial wf sh inv hk h
+  obtain ⟨new', e', nd, _⟩ := core_exec_once_partial wf sh inv hk h
+  have : new' = new := List.append_cancel_left (e'.symm.trans e)
+  exact ⟨v, s', new, h, e, this ▸ nd, j⟩
+
+/-- non-vacuity: `exDU` (the diamond with a firewall and a projection after the firewall's input
+    changed) has both inputs set -/
+example : WF exD ∧ Shape exD ∧ Inv exD exDU ∧ InputsSet exD exDU ∧ 5 < fuelFor exD ∧ 5 < exD.length := by
+  refine ⟨exD_wf, exD_pf.shape, exDU_inv, ?_, by decide, by decide⟩
+  intro k d hp hk
+  match k, hp with
+  | 0, _ => decide
+  | 1, _ => decide
+  | 2, hp | 3, hp | 4, hp | 5, hp => simp [exD] at hp; subst hp; simp at hk
+  | n + 6, hp => simp [exD] at hp
 
 /-- the same over any number of rounds run within one epoch: all executions are of distinct keys
     and each is justified with respect to the state before the first round.
